@@ -13,15 +13,11 @@ Record mrec := {
   mr_wire : msg;
   mr_excl : N;
   mr_to : list N;
-  mr_fwd : bool }.
-Definition set_mr_wire (s : mrec) (v : msg) : mrec :=
-  {| mr_wire := v; mr_excl := mr_excl s; mr_to := mr_to s; mr_fwd := mr_fwd s |}.
-Definition set_mr_excl (s : mrec) (v : N) : mrec :=
-  {| mr_wire := mr_wire s; mr_excl := v; mr_to := mr_to s; mr_fwd := mr_fwd s |}.
+  mr_fwd : bool;
+  mr_n : N }.      (* how many times the application sent this very message (it may keep a reference and send it again) *)
 Definition set_mr_to (s : mrec) (v : list N) : mrec :=
-  {| mr_wire := mr_wire s; mr_excl := mr_excl s; mr_to := v; mr_fwd := mr_fwd s |}.
-Definition set_mr_fwd (s : mrec) (v : bool) : mrec :=
-  {| mr_wire := mr_wire s; mr_excl := mr_excl s; mr_to := mr_to s; mr_fwd := v |}.
+  {| mr_wire := mr_wire s; mr_excl := mr_excl s; mr_to := v; mr_fwd := mr_fwd s; mr_n := mr_n s |}.
+Definition ncount (p : N) (l : list N) : N := N.of_nat (length (filter (N.eqb p) l)).
 Record bso := {
   y_kind : N;
   y_ttl : N;
@@ -100,8 +96,13 @@ Definition bs_ostep (s : bso) (st : stim) (os : list obs) (bl : list N) : bso * 
     | SCall t (CSend _ h b) =>
       if ret_ok t os then
         let '(w, ex, fwd) := send_spec k h b in
-        (set_y_msgs s (aset t {| mr_wire := w; mr_excl := ex; mr_to := []; mr_fwd := fwd |} (y_msgs s)),
-         if fwd then Some t else None)
+        (* keyed by the body's tag (= the call id for a message sent once; an application that kept a reference and sends
+           the very same message again adds one more distribution of it: every pipe may get it once per send) *)
+        let r := match aget (tag_of b) (y_msgs s) with
+                 | Some r0 => {| mr_wire := w; mr_excl := ex; mr_to := mr_to r0; mr_fwd := fwd; mr_n := mr_n r0 + 1 |}
+                 | None => {| mr_wire := w; mr_excl := ex; mr_to := []; mr_fwd := fwd; mr_n := 1 |}
+                 end in
+        (set_y_msgs s (aset (tag_of b) r (y_msgs s)), if fwd then Some (tag_of b) else None)
       else (s, None)
     | SCall t (CRecv _) => (set_y_recvs s (t :: y_recvs s), None)
     | SCall t (CSetOpt _ OTtl v _) => ((if ret_ok t os then set_y_ttl s (Z.to_N v) else s), None)
@@ -123,7 +124,7 @@ Definition bs_ostep (s : bso) (st : stim) (os : list obs) (bl : list N) : bso * 
              let key := tag_of (match r with RMsg _ b => b | _ => [] end) in
              let s1 := set_y_out (set_y_deliv s (aset key (p, r) (y_deliv s))) (y_out s ++ [key]) in
              (set_y_msgs s1 (aset key {| mr_wire := match fw with Some m => m | None => ([], []) end; mr_excl := p; mr_to := [];
-                                         mr_fwd := match fw with Some _ => true | None => false end |} (y_msgs s)),
+                                         mr_fwd := match fw with Some _ => true | None => false end; mr_n := 1 |} (y_msgs s)),
               match fw with Some _ => Some key | None => None end)
            | None => (s, None)
            end
@@ -142,7 +143,7 @@ Definition bs_ostep (s : bso) (st : stim) (os : list obs) (bl : list N) : bso * 
           let s' := set_y_msgs s (aset key (set_mr_to r (p :: mr_to r)) (y_msgs s)) in
           ((if nmem p (y_holds s) then set_y_busy s' (nadd p (y_busy s)) else s'),
            gl_and f {| g_noecho := negb (p =? mr_excl r);
-                       g_once := negb (mr_fwd r) || (msg_eqb (mr_wire r) (h, b) && negb (nmem p (mr_to r)) && nmem p (y_att s));
+                       g_once := negb (mr_fwd r) || (msg_eqb (mr_wire r) (h, b) && (ncount p (mr_to r) <? mr_n r) && nmem p (y_att s));
                        g_all := true; g_nofwd := mr_fwd r; g_up := true |})
         | None => (s, gl_and f {| g_noecho := true; g_once := false; g_all := true; g_nofwd := true; g_up := true |})
         end
@@ -165,7 +166,9 @@ Definition bs_ostep (s : bso) (st : stim) (os : list obs) (bl : list N) : bso * 
     match origin with
     | Some key =>
       match aget key (y_msgs s2) with
-      | Some r => forallb (fun p => nmem p busy0 || (p =? mr_excl r) || nmem p (mr_to r)) att0
+      | Some r =>
+        let before := match aget key (y_msgs s1) with Some r0 => mr_to r0 | None => [] end in
+        forallb (fun p => nmem p busy0 || (p =? mr_excl r) || (ncount p before <? ncount p (mr_to r))) att0
       | None => true
       end
     | None => true
